@@ -72,6 +72,7 @@ def check(case):
     U = K.dumps(kdoc, encoding=kp.Encoding.eKern)
     keys = []
     n = 0
+    primed = K.primed_exporter()
     for I, Xc, shape in selections(case, text):
         kw = {}
         if I is not None:
@@ -81,6 +82,9 @@ def check(case):
         sel = cats.selected(I, Xc)
         got_text = K.dumps(kdoc, encoding=kp.Encoding.eKern, **kw)
         n += 1
+        if n % 7 == 0 and K.via_primed(primed, kdoc, encoding=kp.Encoding.eKern, **kw) != got_text:
+            raise Bad('exporter-with-a-past', f'include={I} exclude={Xc}: an Exporter object that exported other documents and selections before gives a different text than dumps',
+                      include=I, exclude=Xc)
         if len(sel) == 37 and got_text != U:
             raise Bad('identity', f'include={I} exclude={Xc} selects everything but the export differs from the unfiltered one',
                       include=I, exclude=Xc)
